@@ -92,6 +92,10 @@ def run(tier):
                 L.rec_to_binary(rec, f, 5, key)                        # payload region = Enc(key, pad(content)) (byte-exact)
                 text = L.rec_write(rec, f, key, False, wd)
                 L.rec_read(rec, text, key, True, False, wd, auth=rec.last_written)
+                # with the right key the content comes back whether or not the MACs are checked, and in any legal text layout
+                L.rec_read(rec, text, key, False, n % 2 == 0, wd, auth=rec.last_written)
+                if text:
+                    L.rec_read(rec, L.reformat(r, text), key, n % 3 != 0, False, wd, auth=rec.last_written)
                 needles = []
                 nd = needle_of(blob)
                 if nd:
@@ -162,6 +166,7 @@ def run(tier):
             f, text, ev = C.write_plan(rec, seams, orc, r, plan, content=cont)
             if plan.decs:
                 B2.rec_bec2_read(rec, text, list(plan.decs.values()), plan.ecc_privs, orc, True, auth=B2.proj_bec2(f))
+                B2.rec_bec2_read(rec, L.reformat(r, text) if text else text, list(plan.decs.values()), plan.ecc_privs, orc, False, auth=B2.proj_bec2(f))
             needles = [{"name": "session-key", "bytes": B(f.session_key)}]
             nd = needle_of(blob)
             if nd:
